@@ -9,6 +9,8 @@
 mod util;
 mod variation;
 mod weighted;
+mod choices;
+mod compose;
 mod generation;
 mod ordering;
 mod plushy;
@@ -28,6 +30,11 @@ fn main() {
     let rc = match args[0].as_str() {
         "stack-replay" => stack::replay(rest),
         "stack-trace" => stack::trace(rest),
+        "ch-replay" => choices::replay(rest),
+        "ch-law" => choices::law(rest),
+        "ch-trace" => choices::trace(rest),
+        "cmp-replay" => compose::replay(rest),
+        "cmp-trace" => compose::trace(rest),
         "gen-trace" => generation::trace(rest),
         "ord-replay" => ordering::replay(rest),
         "ord-construct" => ordering::construct_trace(rest),
